@@ -185,6 +185,25 @@ func (w *World) fieldUses(fld *types.Var) (invokes []fieldInvoke, stores []*ssa.
 								other = append(other, r2)
 							}
 						case *ssa.DebugRef:
+						case *ssa.TypeAssert:
+							// `_, ok := x.f.(T)` with only the verdict used: a question about the
+							// dynamic type, no alias of the value
+							onlyVerdict := y.CommaOk
+							for _, r3 := range *y.Referrers() {
+								if ex, isEx := r3.(*ssa.Extract); isEx && ex.Index == 1 {
+									continue
+								}
+								if ex, isEx := r3.(*ssa.Extract); isEx && ex.Index == 0 && (ex.Referrers() == nil || len(*ex.Referrers()) == 0) {
+									continue
+								}
+								if _, isD := r3.(*ssa.DebugRef); isD {
+									continue
+								}
+								onlyVerdict = false
+							}
+							if !onlyVerdict {
+								other = append(other, r2)
+							}
 						default:
 							other = append(other, r2)
 						}
